@@ -13,7 +13,7 @@ LEVEL_NOTE = ('Trusted: the ast front-end, the interpreter, real/complex algebra
               'sample point. Numerical agreement with the radial solver output is not decided (needs integration).')
 EXPLANATION = ('R12.1 general helpers == closed form for l=2..7; R12.2 degree-2 helpers == general helpers at l=2; '
                'R12.3 callers (TidesBase wrappers, collapse_modes) interpreted with callee inlined must yield the closed-form Love number, '
-               'which decides argument order at the call sites; R12.4 ragged multi-frequency collapse; R12.5 no in-place update of arguments; R12.6 exact layered-solver solution == complex_love_general.')
+               'which decides argument order at the call sites; R12.4 ragged multi-frequency collapse; R12.5 no in-place update of arguments; R12.6 exact layered-solver solution == complex_love_general; R12.7 the value the public entry point reports under love_number_by_orderl.')
 
 
 def run(chk):
@@ -121,5 +121,48 @@ def run(chk):
     from . import legacy_solver
     legacy_solver.kelvin_from_exact_solutions(chk, repo, 'R12.6', chk.seed, chk.tier)
     chk.floor('R12.6', 9)
+    entry_point_love(chk, repo)
     chk.floor('R12.1', 18); chk.floor('R12.2', 4); chk.floor('R12.3', 10)
     chk.assume('mu, g, R, rho > 0; compliance J complex; algebra over the reals/complex numbers (no rounding)')
+
+
+def entry_point_love(chk, repo):
+    """R12.7: what the public entry point reports under 'love_number_by_orderl' (observe_at of the property): for a spin-synchronous call every mode of degree l shares one
+    forcing frequency, hence one compliance J, and the reported value must be the closed form k_l(J) -- for l = 2 and 3, Maxwell rheology, scalar and array mode."""
+    import ast as _ast
+    from fractions import Fraction as Fr
+    from ..core.interp import FuncRef, Opaque
+    mq = repo.by_path('TidalPy/toolbox/quick_tides.py')
+    f = mq.defs.get('quick_tidal_dissipation')
+    if not isinstance(f, _ast.FunctionDef):
+        raise AnalysisError('quick_tidal_dissipation vanished')
+
+    def call_hook(itp, fn_, args, kwargs, e, fr):
+        if isinstance(fn_, FuncRef) and fn_.node.name == 'compliance_dict_helper':
+            freqs = args[0] if args else kwargs.get('tidal_frequencies')
+            return {sig: X.atom('J_sync', 'complex') for sig in freqs}          # synchronous: every non-zero mode has |w| = n
+        return NotImplemented
+
+    def branch_hook(itp, st, v, fr):
+        return None if isinstance(v, Opaque) and v.name.startswith('tolerance test') else False
+    M = X.atom('M_host', 'pos'); m = X.atom('m_target', 'pos'); R = X.atom('R', 'pos'); g = X.atom('g', 'pos'); rho = X.atom('rho', 'pos'); mu = X.atom('mu', 'pos')
+    J = X.atom('J_sync', 'complex')
+    d = X.Decider(seed=chk.seed + 5, k=2, positive=[M + m])
+    for arrays in (False, True):
+        it = Interp(repo, hooks={'call': call_hook, 'branch': branch_hook}, max_depth=12)
+        it.array_mode = arrays
+        for lmax in (2, 3):
+            out = it.call(mq, f, [], dict(host_mass=M, target_radius=R, target_mass=m, target_gravity=g, target_density=rho, target_moi=X.atom('C', 'pos'), viscosity=X.atom('eta', 'pos'),
+                                          shear_modulus=mu, rheology='Maxwell', eccentricity=X.atom('e', 'pos'), orbital_frequency=X.atom('n', 'pos'), max_tidal_order_l=lmax,
+                                          eccentricity_truncation_lvl=4))
+            love = out.get('love_number_by_orderl') if isinstance(out, dict) else None
+            bad = []
+            for l in range(2, lmax + 1):
+                got = love.get(l) if isinstance(love, dict) else None
+                m_l = X.const(Fr(2 * l * l + 4 * l + 3, l)) * mu / (rho * g * R)
+                ref = X.const(Fr(3, 2 * (l - 1))) / (1 + m_l / (J * mu))
+                if not isinstance(got, X.Node) or not d.equal(got, ref):
+                    bad.append(f'love_number_by_orderl[{l}] is not 3/(2(l-1)) / (1 + m_l / (J mu))')
+            chk.ob('R12.7', f'quick_tidal_dissipation (spin-synchronous, l_max = {lmax}{", array inputs" if arrays else ""}): the reported love_number_by_orderl is the closed form at the one compliance the modes share',
+                   not bad, '; '.join(bad), mq.where(f), key=f'R12.7|lmax={lmax}|arrays={arrays}', method='whole-function interpretation (compliance stubbed) + GF(p^2) PIT')
+    chk.floor('R12.7', 4)
